@@ -133,7 +133,7 @@ def analyse_body(mir, body):
         if bb.cleanup or bb.term.k != "call":
             continue
         nm = bb.term.callee.split("::")[-1]
-        if nm in INPLACE_SORTS:
+        if nm in INPLACE_SORTS or nm in ("sort", "sort_unstable"):      # a plain sort orders by the elements themselves: total
             for a in bb.term.args[:1]:
                 if a.place is not None and a.place.local in tainted:
                     sorted_roots.setdefault(root(a.place.local), []).append(bb.idx)
